@@ -2,7 +2,7 @@
 From BBF Require Import Base.Prelude Base.Names Base.Bits Spec.Sem
      Model.Expr Model.Table Model.LibBdd Model.Bdd
      Proofs.ExprProofs Proofs.TableProofs Proofs.QuantProofs Proofs.NfProofs Proofs.DdProofs Proofs.BddProofs Proofs.BddOps
-     Proofs.ConvProofs Proofs.RenderProofs Proofs.EnumProofs.
+     Proofs.ConvProofs Proofs.RenderProofs Proofs.EnumProofs Proofs.CountProofs.
 Theorem C10_domain_size : forall n, length (points n) = 2 ^ n.
 Proof. exact points_length. Qed.
 Print Assumptions C10_domain_size.
@@ -42,6 +42,11 @@ Print Assumptions C10_table.
 Theorem C10_bdd : forall b, wf_bdd b -> let ins := b_inputs b in b_domain b = points (length ins) /\ b_image b = map (fun p => bsem b (env_of ins p)) (b_domain b) /\ b_relation b = combine (b_domain b) (b_image b) /\ b_support b = filter (fun p => bsem b (env_of ins p)) (b_domain b) /\ (forall p, b_sat_point b = Some p -> In p (b_support b)) /\ (b_sat_point b = None <-> b_support b = []).
 Proof. exact b_enum_spec. Qed.
 Print Assumptions C10_bdd.
+
+(* the diagram's weight (exact_cardinality on the tree) is the size of its support *)
+Theorem C10_bdd_weight : forall b, wf_bdd b -> b_weight b = N.of_nat (length (b_support b)).
+Proof. exact b_weight_is_support_size. Qed.
+Print Assumptions C10_bdd_weight.
 
 (* position i of a point stands for the i-th smallest input *)
 Theorem C10_point_positions : forall inputs, sset inputs -> forall p, length p = length inputs -> map (env_of inputs p) inputs = p.
